@@ -3,6 +3,10 @@ use vh::engine::{drive, start_watchdog, Tier};
 
 fn main() {
     let args: Vec<String> = std::env::args().skip(1).collect();
+    // debugging aid only: VERIF_TRACE=<env-filter> prints litep2p's tracing output to stderr
+    if let Ok(filter) = std::env::var("VERIF_TRACE") {
+        let _ = tracing_subscriber::fmt().with_env_filter(tracing_subscriber::EnvFilter::new(filter)).with_writer(std::io::stderr).try_init();
+    }
     if args.is_empty() {
         eprintln!("usage: vh <Cxx> [--tier quick|thorough] [--replay FILE]");
         std::process::exit(2);
